@@ -1,5 +1,6 @@
 import Uft.Gen.Layout
 import Uft.Model.Mcount
+import Uft.Lemmas.Mcount
 /-
 C02 — The recorded trace is exactly each thread's call history.
 Part 1: the record word. `Gen.Layout.packWord` is regenerated from
@@ -46,5 +47,130 @@ theorem c02_addr_never_corrupted (type depth addr : Nat) (more : Bool)
     omega
 
 example : (2 : Nat) < 4 ∧ (1023 : Nat) < 1024 ∧ (0xffffffffffff : Nat) < 2 ^ 48 := by decide
+
+/-!
+Part 2: the hooks emit exactly the executed history.
+
+`runCall` drives the model of the entry/exit hooks (`Uft/Model/Mcount.lean`,
+validated against the real libmcount by the H1 correspondence run) over an
+arbitrary call tree.  The hooks write lazily (an ENTRY is written only when a
+descendant or the call itself is recorded); `pending` are the ENTRY records
+still owed for the open frames.  The theorem says: what has been written plus
+what is owed is exactly the eager trace — nothing missing, spurious,
+duplicated or reordered; depth = number of open calls; time stamps are the
+clock readings of the hooks — for every call tree of any size and depth up to
+--max-stack, for both the -pg/fentry and the -finstrument-functions hooks.
+-/
+open Uft.Mcount
+
+theorem pending_cons_unwritten (F : Frame) (fs : List Frame) (h : F.written = false) :
+    pending (F :: fs) = pending fs ++ [entryRec F] := by
+  simp [pending, h]
+
+theorem markTo_cons_unwritten (F : Frame) (fs : List Frame) (h : F.written = false) :
+    markTo (F :: fs) = markW F :: markTo fs := by
+  simp [markTo, h]
+
+mutual
+theorem emit_call (cfg : Cfg) (hp : Plain cfg) (k : Kind) :
+    ∀ (c : Call) (s : St) (d : Nat), Good s d → d + c.height ≤ cfg.maxStack →
+      d + c.height ≤ cfg.depthOpt → c.timed →
+      (runCall cfg k s c).out = s.out ++ pending s.frames ++ evCall d c ∧
+      (runCall cfg k s c).frames = markTo s.frames ∧
+      Good (runCall cfg k s c) d
+  | .node f t0 t1 kids, s, d, hg, hm, hd, ht => by
+    simp only [Call.height] at hm hd
+    simp only [Call.timed] at ht
+    obtain ⟨e1, e2, e3, e4⟩ := entry_plain cfg hp k s d f t0 hg (by omega) (by omega)
+    have hk := emit_calls cfg hp k kids (entry cfg k s f t0).1 (d + 1) e4 (by omega) (by omega) ht.2
+    have hFw : (plainFrame k f t0 d).written = false := rfl
+    simp only [runCall, e1, ↓reduceIte]
+    cases kids with
+    | nil =>
+      simp only [runCalls]
+      obtain ⟨x1, x2, x3⟩ := exit_plain cfg hp k (entry cfg k s f t0).1 d f t0 t1 false s.frames
+        (by rw [e3]; rfl) e4 ht.1 (by simp)
+      refine ⟨?_, x2, x3⟩
+      rw [x1, e2]
+      simp [evCall, evCalls, entryRec, plainFrame]
+    | cons c rest =>
+      obtain ⟨k1, k2, k3⟩ := hk
+      simp only at k1 k2
+      rw [e3, markTo_cons_unwritten _ _ hFw] at k2
+      rw [e3, pending_cons_unwritten _ _ hFw, e2] at k1
+      obtain ⟨x1, x2, x3⟩ := exit_plain cfg hp k
+        (runCalls cfg k (entry cfg k s f t0).1 (.cons c rest)) d f t0 t1 true (markTo s.frames)
+        (by rw [k2]; rfl) k3 ht.1 (fun _ => markTo_markTo _)
+      refine ⟨?_, by rw [x2, markTo_markTo], x3⟩
+      rw [x1, k1]
+      simp [evCall, entryRec, plainFrame]
+theorem emit_calls (cfg : Cfg) (hp : Plain cfg) (k : Kind) :
+    ∀ (cs : Calls) (s : St) (d : Nat), Good s d → d + cs.height ≤ cfg.maxStack →
+      d + cs.height ≤ cfg.depthOpt → cs.timed →
+      (runCalls cfg k s cs).out =
+        s.out ++ (match cs with | .nil => [] | .cons _ _ => pending s.frames) ++ evCalls d cs ∧
+      (runCalls cfg k s cs).frames = (match cs with | .nil => s.frames | .cons _ _ => markTo s.frames) ∧
+      Good (runCalls cfg k s cs) d
+  | .nil, s, d, hg, _, _, _ => by simp [runCalls, evCalls, hg]
+  | .cons c rest, s, d, hg, hm, hd, ht => by
+    simp only [Calls.height] at hm hd
+    simp only [Calls.timed] at ht
+    obtain ⟨c1, c2, c3⟩ := emit_call cfg hp k c s d hg (by omega) (by omega) ht.1
+    obtain ⟨r1, r2, r3⟩ := emit_calls cfg hp k rest (runCall cfg k s c) d c3 (by omega) (by omega) ht.2
+    simp only [runCalls]
+    refine ⟨?_, ?_, r3⟩
+    · rw [r1, c1]
+      cases rest with
+      | nil => simp [evCalls]
+      | cons c' r' => simp [evCalls, c2, pending_markTo]
+    · rw [r2]
+      cases rest with
+      | nil => simp [c2]
+      | cons c' r' => simp [c2, markTo_markTo]
+end
+
+/-- C02 main statement on the hook model: starting from a fresh thread, after
+    any forest of completed calls the written stream is exactly the eager trace
+    of that forest (for every tree shape, recursion, any depth ≤ max-stack and
+    ≤ the depth limit, both instrumentation flavours). -/
+theorem c02_emit_exact (cfg : Cfg) (hp : Plain cfg) (k : Kind) (cs : Calls)
+    (hm : cs.height ≤ cfg.maxStack) (hd : cs.height ≤ cfg.depthOpt) (ht : cs.timed)
+    (hmin : cfg.minSize = 0) (hen : cfg.enabled0 = true) :
+    (runCalls cfg k (St.init cfg) cs).out = evCalls 0 cs ∧
+    (runCalls cfg k (St.init cfg) cs).frames = [] := by
+  have hg : Good (St.init cfg) 0 := by
+    constructor <;> simp [St.init, hmin, hen, NoSkip]
+  obtain ⟨h1, h2, _⟩ := emit_calls cfg hp k cs (St.init cfg) 0 hg (by omega) (by omega) ht
+  constructor
+  · rw [h1]; cases cs <;> simp [St.init, pending]
+  · rw [h2]; cases cs <;> simp [St.init, markTo]
+
+/-- The same for a prefix of an execution (calls still open): written ++ owed
+    = eager trace, at every call boundary inside any tree. This is
+    `emit_call`/`emit_calls` with an arbitrary `Good` start state; stated here
+    for one more call entered after a completed forest. -/
+theorem c02_emit_prefix (cfg : Cfg) (hp : Plain cfg) (k : Kind) (cs : Calls) (f t0 : Nat)
+    (hm : cs.height ≤ cfg.maxStack) (hd : cs.height ≤ cfg.depthOpt) (ht : cs.timed)
+    (hmin : cfg.minSize = 0) (hen : cfg.enabled0 = true)
+    (hm1 : 0 < cfg.maxStack) (hd1 : 0 < cfg.depthOpt) :
+    let s := (entry cfg k (runCalls cfg k (St.init cfg) cs) f t0).1
+    s.out ++ pending s.frames = evCalls 0 cs ++ [{ time := t0, type := 0, depth := 0, addr := f }] := by
+  have hg : Good (St.init cfg) 0 := by
+    constructor <;> simp [St.init, hmin, hen, NoSkip]
+  obtain ⟨h1, h2, h3⟩ := emit_calls cfg hp k cs (St.init cfg) 0 hg (by omega) (by omega) ht
+  obtain ⟨e1, e2, e3, e4⟩ := entry_plain cfg hp k _ 0 f t0 h3 hm1 hd1
+  have hfr : (runCalls cfg k (St.init cfg) cs).frames = [] := by
+    rw [h2]; cases cs <;> simp [St.init, markTo]
+  have hout : (runCalls cfg k (St.init cfg) cs).out = evCalls 0 cs := by
+    rw [h1]; cases cs <;> simp [St.init, pending]
+  simp only [e2, e3, hfr, hout]
+  simp [pending, plainFrame, entryRec]
+
+/-- non-vacuity: a recursive tree of depth 3 meets the hypotheses -/
+example : (Calls.cons (.node 1 10 50 (.cons (.node 1 20 40 (.cons (.node 2 25 30 .nil) .nil)) .nil)) .nil).timed ∧
+    (Calls.cons (.node 1 10 50 (.cons (.node 1 20 40 (.cons (.node 2 25 30 .nil) .nil)) .nil)) .nil).height ≤ 1024 := by
+  simp [Calls.timed, Call.timed, Calls.height, Call.height]
+
+example : Plain ({} : Cfg) := by constructor <;> simp
 
 end Uft.C02
